@@ -122,6 +122,7 @@ def defInfo (sink : Bool) (defn : String) : Option (Nat × Bool) :=
   | false, "f2" => some (2, false)
   | false, "g2" => some (2, false)
   | false, "t1" => some (1, true)
+  | true, "k0" => some (0, false)   -- output-less node without time-series inputs
   | true, "k1" => some (1, false)
   | true, "k2" => some (2, false)
   | _, _ => none
